@@ -124,6 +124,14 @@ def check(tier, seed, replay=None):
             else:
                 txt = '(%s "%s" "%s")' % (f, sa, sb)
             items.append(("eval", txt, ("null",), None))
+        # operands at the edges of the machine integers, written as plain digit strings (a conversion that tries the machine types first must fall
+        # back to the general one): 2^63 +- 1, 2^64 +- 1, 10^19 - 1, 10^18, the same negated
+        EDGES = [2**63 - 1, 2**63, 2**63 + 1, 2**64 - 1, 2**64, 10**19 - 1, 10**19, 10**18, 2**31, 2**32, 99999999999999999999, 2**127, 2**128]
+        for a in EDGES:
+            for sa in (str(a), "-" + str(a), str(a) + ".0", "0" + str(a)):
+                for f, other in (('"+"', "1"), ('"-"', "1"), ('"*"', "3"), ('"abs"', None), ('"||"', None), ('"="', str(a)), ('"<"', str(a + 1)), ('">="', str(a - 1))):
+                    txt = '(%s "%s")' % (f, sa) if other is None else '(%s "%s" "%s")' % (f, sa, other)
+                    items.append(("eval", txt, ("null",), None))
         for i in range(20 if quick else 800):
             keys = [rnd.choice(dec_spellings(rnd, rand_decimal(rnd))) for _ in range(rnd.choice([2, 4, 8]))]
             lst = ("arr", [("obj", [(X.cps("k"), ("num", str(j))), (X.cps("v"), ("str", X.cps(s)))]) for j, s in enumerate(keys)])
